@@ -65,6 +65,11 @@ CHECKS = {
         "in-range and out-of-range integers; every pattern of <= 2 tokens) and checks the declarative shortest/longest clause (RemovalSound) and SubstrSound on every value; the 112k results are compared with the real shell's.",
    note="Trusted: TLC, bash 5.2.15 (0 disagreements with the model on the enumerated domain), C.UTF-8. Not yet in the spec: ${!v}, ${!a[@]}, array/positional slicing, @-transformations (see C13 for @Q), arithmetic-expression offsets.",
    ref="DESIGN.md section 6 C06"),
+ "C15": dict(level=MC, thorough=True, tech="TLA+ Interp.tla predictions replayed through five delivery modes (file, -c, stdin, source, eval) with $LINENO probes; (completeness and cache-transparency parts: Complete.tla / Caches.tla with in-process harness, when present)",
+   text="One model prediction per TLC-generated program must be reproduced by the real shell in every delivery mode, and the $LINENO values of the probes must equal bash's in the same mode "
+        "(and the renderer's line map outside eval / command substitution). Parts (b) input completeness and (c) parse-cache transparency are decided by their own specifications when built (evidence lists which parts ran).",
+   note="Trusted: TLC, renderer, bash 5.2.15. `return` at top level is a different program under `source` (skipped there). One recorded finding: $LINENO inside eval'd text.",
+   ref="DESIGN.md section 6 C15"),
 }
 PENDING_REASON = "check not built yet in this round (planned, see DESIGN.md section 12); no claim is made"
 
